@@ -358,7 +358,7 @@ def main(ctx):
     quick = ctx.tier == "quick"
     known = tuple(ctx.open_keys)
     n = 60 if quick else 800
-    stop_at = time.time() + (70 if quick else 1500)
+    stop_at = time.time() + (70 if quick else 900)
     ctx.pmap(worker, [(ctx.seed * 100003 + i, n, known, stop_at) for i in range(common.NPROC)])
     ctx.rule = ("case = (expression tree, context, valuation of 8 integer sources of every width/sign + 2 bools + a string); 10-36 expressions per "
                 "generated parser x 4-10 valuations; evaluations = (expression, valuation) pairs compared with the big-integer C evaluator; "
